@@ -39,6 +39,8 @@ ASSUMPTIONS = [
     "the printed report is observed through the rich Table objects handed to rich_print; a reported service must appear in the first column of some table printed for its layer",
     "a changed attribute must show up as one detail row whose old/new cells equal the old/new value of the edit (hexadecimal strings are read as integers); the wording of labels is not asserted",
     "find and decode tools are not covered (the statement only speaks about comparison and the layer overview)",
+    "attribute edits cover exactly the attributes Comparison.compare_parameters has a branch for (byte position, bit length incl. BYTE-LENGTH of MATCHING-REQUEST-PARAM and RESERVED, semantic, coded value(s), data type of CODED-CONST/NRC-CONST, linked DOP of VALUE/PHYS-CONST/SYSTEM/LENGTH-KEY, PHYS-CONSTANT-VALUE, a changed PHYSICAL-DEFAULT-VALUE); attributes it does not look at (BIT-POSITION, REQUEST-BYTE-POS, SYSPARAM, TABLE-REF/TABLE-KEY-REF, adding or removing a default, ...) are not named by the statement and are neither generated nor asserted",
+    "PHYS-CONST values and VALUE defaults are only generated with IDENTICAL DOPs (so that they are valid physical values) and a PHYS-CONST never directly follows the leading constants of a request (it would belong to the request prefix)",
     "layer-overview cases: layers of all five kinds with at most one parent (kinds as ODX allows), unique short names, an ECU-SHARED-DATA has no communication parameters; each row must show the model's counts for that layer whatever rows precede it; in the per-layer listing of `odxtools list` everything printed after a layer was named and before the next one is named must be exactly the services / DOPs / communication parameters applicable to that layer (recognised by their generated short names, wording not asserted)",
 ]
 MUST_HIT = ["edit:identity", "edit:add", "edit:delete", "edit:rename", "edit:byte_position", "edit:bit_length",
